@@ -16,6 +16,7 @@ import (
 	"time"
 
 	"github.com/pingcap/kvproto/pkg/kvrpcpb"
+	"github.com/tikv/client-go/v2/kv"
 	"github.com/tikv/client-go/v2/tikv"
 	"github.com/tikv/client-go/v2/tikvrpc"
 
@@ -138,6 +139,10 @@ type Point struct {
 
 func (p Point) String() string { return fmt.Sprintf("%s#%d", p.Sig, p.N) }
 
+// LockerRPCBound bounds the requests of the "locker" companion's single LockKeys call over the dead transaction's
+// (expired) locks; a fault-free call needs a few dozen.
+const LockerRPCBound = 5000
+
 // Env is one prepared universe: layout, old values, victim and observer stores.
 type Env struct {
 	U      *uni.Universe
@@ -145,6 +150,8 @@ type Env struct {
 	Obs    *uni.ClientStore
 	Shape  Shape
 	Old    map[string]string
+	// LockerLivelock is set when the locker companion exceeded LockerRPCBound
+	LockerLivelock atomic.Bool
 }
 
 // NewEnv builds the universe of a shape: splits, old values committed by the observer.
@@ -299,20 +306,139 @@ type Observation struct {
 	Err  string
 }
 
-// Recover performs the bounded recovery procedure of C02/C03.
+// Companion is what else happens in the universe while the transaction is being recovered.
+type Companion int
+
+// Companions of a recovery.
+const (
+	CompNone       Companion = iota // a fresh observer reads, then one GC pass
+	CompSplit                       // the regions of the transaction's keys split before anybody looks
+	CompWarmReader                  // the reader is the client that wrote the old values (warm, now possibly stale, region cache)
+	CompTwoReaders                  // two clients read (and resolve) concurrently
+	CompLocker                      // a pessimistic transaction locks the keys first (runs into the locks as a writer), then rolls back
+	CompGCFirst                     // the GC pass meets the locks first, the readers come afterwards
+	CompMoveLeader                  // the leaders of the keys' regions move before anybody looks
+	NCompanions
+)
+
+func (c Companion) String() string {
+	return [...]string{"none", "split", "warm-reader", "two-readers", "locker", "gc-first", "move-leader"}[c]
+}
+
+// Recover performs the bounded recovery procedure of C02/C03 (without companion).
 func (e *Env) Recover(keys []string, earlier []uint64) ([]Observation, [2]int64, error) {
+	o, w, err := e.RecoverWith(keys, earlier, CompNone)
+	var gcw [2]int64
+	if len(w) > 0 {
+		gcw = w[len(w)-1]
+	}
+	return o, gcw, err
+}
+
+// RecoverWith performs the bounded recovery procedure with a companion; it returns the observations and the
+// sequence windows of the GC passes.
+func (e *Env) RecoverWith(keys []string, earlier []uint64, comp Companion) ([]Observation, [][2]int64, error) {
+	o, w, err := e.recoverWith(keys, earlier, comp)
+	return o, w, err
+}
+
+func (e *Env) recoverWith(keys []string, earlier []uint64, comp Companion) ([]Observation, [][2]int64, error) {
 	u := e.U
 	u.DeliverLate()
+	var windows [][2]int64
+	switch comp {
+	case CompSplit:
+		for _, k := range keys {
+			u.SplitAt([]byte(k))
+			u.SplitAt([]byte(k + "\x00"))
+		}
+	case CompMoveLeader:
+		for i, k := range keys {
+			u.MoveLeader([]byte(k), i+1)
+		}
+	}
 	u.AdvanceClock(3 * 3600 * 1000)
-	obs, err := u.NewClient()
-	if err != nil {
-		return nil, [2]int64{}, err
+	obs := e.Obs
+	var err error
+	if comp != CompWarmReader || obs == nil {
+		obs, err = u.NewClient()
+		if err != nil {
+			return nil, nil, err
+		}
 	}
 	ctx := context.Background()
+	gcPass := func() error {
+		sp, err := obs.Store.CurrentTimestamp("global")
+		if err != nil {
+			return err
+		}
+		w0 := u.Log.Now()
+		gcErr := tikv.StoreProbe{KVStore: obs.Store}.GCResolveLockPhase(ctx, sp, 1)
+		w1 := u.Log.Now()
+		windows = append(windows, [2]int64{w0, w1})
+		u.Drain()
+		if gcErr != nil {
+			return fmt.Errorf("gc resolve: %w", gcErr)
+		}
+		return nil
+	}
+	switch comp {
+	case CompGCFirst:
+		if err := gcPass(); err != nil {
+			return nil, windows, err
+		}
+	case CompLocker:
+		lk, err := u.NewClient()
+		if err != nil {
+			return nil, nil, err
+		}
+		// bounded progress in logical steps: one lock call over a handful of expired locks that needs more than
+		// LockerRPCBound requests is not going to end (the caller reports it); the client is cut off then
+		var n atomic.Int64
+		lk.Net.SetDecider(func(c *uni.Call) uni.Action {
+			if n.Add(1) > LockerRPCBound {
+				e.LockerLivelock.Store(true)
+				return uni.Action{Kind: uni.KillBefore}
+			}
+			return uni.Action{}
+		})
+		txn, err := lk.Begin(tikv.WithTxnScope("global"))
+		if err == nil {
+			txn.SetPessimistic(true)
+			var ks [][]byte
+			for _, k := range keys {
+				ks = append(ks, []byte(k))
+			}
+			lctx := kv.NewLockCtx(txn.StartTS(), 50, time.Now())
+			_ = txn.LockKeys(ctx, lctx, ks...) // any answer is fine: the point is that a writer runs into the locks
+			_ = txn.Rollback()
+		}
+		u.Drain()
+	}
 	var out []Observation
 	now, err := obs.Store.CurrentTimestamp("global")
 	if err != nil {
-		return nil, [2]int64{}, err
+		return nil, windows, err
+	}
+	var second chan struct{}
+	if comp == CompTwoReaders {
+		o2, err := u.NewClient()
+		if err != nil {
+			return nil, windows, err
+		}
+		second = make(chan struct{})
+		go func() {
+			defer close(second)
+			snap := o2.Store.GetSnapshot(now)
+			var ks [][]byte
+			for i := len(keys) - 1; i >= 0; i-- {
+				ks = append(ks, []byte(keys[i]))
+			}
+			_, _ = snap.BatchGet(ctx, ks)
+			for _, k := range ks {
+				_, _ = snap.Get(ctx, k)
+			}
+		}()
 	}
 	readAt := func(ts uint64) Observation {
 		o := Observation{TS: ts, Vals: map[string]string{}}
@@ -360,6 +486,9 @@ func (e *Env) Recover(keys []string, earlier []uint64) ([]Observation, [2]int64,
 		return o
 	}
 	out = append(out, readAt(now))
+	if second != nil {
+		<-second
+	}
 	for _, ts := range earlier {
 		if ts != 0 {
 			out = append(out, readAt(ts))
@@ -367,18 +496,10 @@ func (e *Env) Recover(keys []string, earlier []uint64) ([]Observation, [2]int64,
 	}
 	u.Drain()
 	// one GC lock-resolution pass for the locks that block no reader (lock-only, pessimistic)
-	sp, err := obs.Store.CurrentTimestamp("global")
-	if err != nil {
-		return out, [2]int64{}, err
+	if err := gcPass(); err != nil {
+		return out, windows, err
 	}
-	w0 := u.Log.Now()
-	gcErr := tikv.StoreProbe{KVStore: obs.Store}.GCResolveLockPhase(ctx, sp, 1)
-	w1 := u.Log.Now()
-	u.Drain()
-	if gcErr != nil {
-		return out, [2]int64{w0, w1}, fmt.Errorf("gc resolve: %w", gcErr)
-	}
-	return out, [2]int64{w0, w1}, nil
+	return out, windows, nil
 }
 
 // Verdict of the oracles for one execution.
